@@ -71,7 +71,10 @@ EXTRA_ITEMS = [["DI", D_AMP], ["DI", D_HEADTAG], ["DI", D_HEADLIST], ["DI", D_HE
                # tagifiable objects whose expansion is a <body> / <html> tag, or a list holding just that
                ["X", E("body", True, [T("xb"), ["DI", D_A1]], [["class", "from-object"]])],
                ["X", E("html", True, [E("body", True, [T("xh")])], [["lang", "xx"]])],
-               ["X", ["L", [E("body", True, [T("xlb")])]]]]
+               ["X", ["L", [E("body", True, [T("xlb")])]]],
+               # dependencies whose NAME is a structural tag name
+               ["DI", {"name": "head", "version": "1.0", "script": [{"src": "h.js"}], "source": {"href": "https://cdn/h"}}],
+               ["DI", {"name": "body", "version": "1.0"}], ["DI", {"name": "html", "version": "2.0", "head": "<meta name=\"html-dep\"/>"}]]
 HEADKIDS = [E("title", True, [T("user title")]), ["DI", D_A2], E("link", True, [], [["rel", "x"]]), HC_TAG,
             E("meta", True, [], [["charset", "iso-8859-1"]])]
 ATTRS = [[], [["lang", "en"]], [["class_", "k"]]]
@@ -352,11 +355,17 @@ def plan(tier):
 
 
 def plan_extra(tier):
+    NOHEAD_ITEMS = [x for x in EXTRA_ITEMS if not (x[0] == "E" and x[1] == "head")]
     it2 = Const([T("txt"), B([T("b")]), ["DI", D_A1], HC_TAG] + EXTRA_ITEMS)
     if tier == "quick":
         content = Alt(Seq(it2, 0, 2), Map(Seq(it2, 0, 1), lambda ks: [["E", "body", True, [["class", "bd"]], ks]]),
                       Map(Seq(Const(EXTRA_ITEMS), 0, 1), lambda ks: [["E", "html", True, [], [
-                          ["E", "head", True, [], [E("title", True, [T("user title")])]], ["E", "body", True, [], ks]]]]))
+                          ["E", "head", True, [], [E("title", True, [T("user title")])]], ["E", "body", True, [], ks]]]]),
+                      # the user's own <html> with an item BEFORE its <head>, and between head and body
+                      Map(Seq(Const(NOHEAD_ITEMS), 1, 1), lambda ks: [["E", "html", True, [], ks + [
+                          ["E", "head", True, [["data-h", "1"]], [E("title", True, [T("user title")])]], ["E", "body", True, [], [T("b")]]]]]),
+                      Map(Seq(Const(NOHEAD_ITEMS), 1, 1), lambda ks: [["E", "html", True, [], [
+                          ["E", "head", False, [], []]] + ks + [["E", "body", True, [], [T("b")]]]]]))
     else:
         content = Alt(Seq(it2, 0, 2), Map(Seq(it2, 0, 2), lambda ks: [["E", "body", True, [["class", "bd"]], ks]]),
                       html_variants(Const(EXTRA_ITEMS)))
